@@ -10,173 +10,181 @@ use vh_lite::{read_cases, drive, drive_group, quiet_panics, Out};
 
 mod tc_right__to;
 mod tc_left__mrt;
-mod tc_left__srcpar;
-mod tc_nonlin__ser;
-mod tc_nonlin__permpar;
-mod mutual__topar;
-mod mutual__init;
-mod mutual__u64;
-mod scc_chain__perm2;
-mod diamond__pari;
-mod repeated__perm2;
-mod three_dyn__pari;
-mod three_dyn__u64;
-mod conds__run;
-mod conds__runpar;
-mod expr_args__pari;
-mod multi_head__pari;
-mod facts__par;
-mod facts__redecl;
-mod facts__str;
-mod opt_cols__gen;
-mod cartesian__ser;
-mod same_gen__perm1;
-mod not_reorderable__par;
-mod two_inputs__mrt;
-mod two_inputs__srcpar;
-mod wild__ser;
-mod ternary__ren;
-mod bound_mix__perm1;
-mod join_chain__par;
-mod join_chain__strpar;
-mod reach__topar;
-mod lag_right__par;
-mod lag_right__str;
-mod lag_three__ser;
-mod lag_mid__perm1;
-mod lag_late_delta__par;
-mod sp_dual__topar;
-mod sp_dual__init;
-mod sp_weighted__par;
-mod longest_capped__topar;
-mod set_reach__gen;
-mod bset__ser;
-mod cp__to;
-mod bool_lat__ser;
-mod lat_multi_improve__pari;
-mod count_paths__pari;
-mod count_paths__src2;
+mod tc_left__runpar;
+mod tc_left__strpar;
+mod tc_nonlin__ren;
+mod mutual__to;
+mod mutual__srcto;
+mod mutual__permpar;
+mod scc_chain__topar;
+mod diamond__ser;
+mod repeated__pari;
+mod three_dyn__ser;
+mod three_dyn__permpar;
+mod conds__par;
+mod conds__srcto;
+mod conds__permpar;
+mod count_up__topar;
+mod multi_head__ren;
+mod facts__src0;
+mod facts__perm1;
+mod opt_cols__par;
+mod opt_cols__srcto;
+mod same_gen__ser;
+mod same_gen__permpar;
+mod two_inputs__par;
+mod two_inputs__src1;
+mod two_inputs__perm2;
+mod wild__pari;
+mod ternary__str;
+mod bound_mix__ren;
+mod join_chain__perm1;
+mod cond_simple_join__par;
+mod zero_arity__par;
+mod lag_right__to;
+mod lag_right__strpar;
+mod lag_three__pari;
+mod lag_mid__ren;
+mod lag_late_delta__to;
+mod multi_head_rec__exppar;
+mod sp_dual__gen;
+mod sp_dual__srcpar;
+mod sp_weighted__to;
+mod set_reach__par;
+mod set_reach__src1;
+mod bset__par;
+mod cp__topar;
+mod bool_lat__par;
+mod lat_multi_improve__to;
+mod lat_input__to;
+mod lat_input__srcto;
+mod count_paths__to;
+mod count_paths__srcto;
 mod neg_basic__to;
-mod neg_basic__redecl;
-mod neg_basic__exp;
-mod agg_depth__to;
-mod agg_user__par;
-mod agg_bound_mix__par;
-mod agg_empty_rel__par;
-mod agg_const_args__exppar;
-mod disj__gen;
-mod disj__perm1;
-mod disj_nested__pari;
-mod rep_expr__ser;
-mod multi_head_disj__exp;
-mod mac_basic__par;
-mod mac_basic__src1;
-mod mac_capture__ser;
-mod mac_nested__exp;
-mod mac_disj__par;
-mod rnd_core_02__par;
-mod rnd_core_05__ser;
-mod rnd_core_07__pari;
-mod rnd_core_10__par;
-mod rnd_core_13__ser;
-mod rnd_core_15__pari;
-mod rnd_core_18__par;
-mod rnd_core_21__ser;
-mod rnd_core_23__pari;
-mod rnd_core_26__par;
-mod rnd_core_29__ser;
-mod rnd_agg_01__pari;
-mod rnd_agg_04__par;
-mod rnd_agg_07__ser;
-mod rnd_agg_09__pari;
-mod rnd_agg_12__par;
-mod rnd_agg_15__ser;
+mod neg_basic__srcto;
+mod neg_basic__permpar;
+mod agg_depth__pari;
+mod agg_user__ser;
+mod agg_bound_mix__ser;
+mod agg_empty_rel__ser;
+mod agg_const_args__exp;
+mod disj__mrt;
+mod disj__runpar;
+mod disj_nested__ser;
+mod pat_args__exp;
+mod multi_head_disj__par;
+mod neg_in_disj__exppar;
+mod mac_basic__gen;
+mod mac_basic__srcpar;
+mod mac_nested__ser;
+mod mac_gensym_disj__exp;
+mod rnd_core_01__par;
+mod rnd_core_04__ser;
+mod rnd_core_06__pari;
+mod rnd_core_09__par;
+mod rnd_core_12__ser;
+mod rnd_core_14__pari;
+mod rnd_core_17__par;
+mod rnd_core_20__ser;
+mod rnd_core_22__pari;
+mod rnd_core_25__par;
+mod rnd_core_28__ser;
+mod rnd_core_30__pari;
+mod rnd_agg_03__par;
+mod rnd_agg_06__ser;
+mod rnd_agg_08__pari;
+mod rnd_agg_11__par;
+mod rnd_agg_14__ser;
 
 fn lookup(name: &str) -> fn() -> Box<dyn Driven> {
    match name {
       "tc_right__to" => tc_right__to::make,
       "tc_left__mrt" => tc_left__mrt::make,
-      "tc_left__srcpar" => tc_left__srcpar::make,
-      "tc_nonlin__ser" => tc_nonlin__ser::make,
-      "tc_nonlin__permpar" => tc_nonlin__permpar::make,
-      "mutual__topar" => mutual__topar::make,
-      "mutual__init" => mutual__init::make,
-      "mutual__u64" => mutual__u64::make,
-      "scc_chain__perm2" => scc_chain__perm2::make,
-      "diamond__pari" => diamond__pari::make,
-      "repeated__perm2" => repeated__perm2::make,
-      "three_dyn__pari" => three_dyn__pari::make,
-      "three_dyn__u64" => three_dyn__u64::make,
-      "conds__run" => conds__run::make,
-      "conds__runpar" => conds__runpar::make,
-      "expr_args__pari" => expr_args__pari::make,
-      "multi_head__pari" => multi_head__pari::make,
-      "facts__par" => facts__par::make,
-      "facts__redecl" => facts__redecl::make,
-      "facts__str" => facts__str::make,
-      "opt_cols__gen" => opt_cols__gen::make,
-      "cartesian__ser" => cartesian__ser::make,
-      "same_gen__perm1" => same_gen__perm1::make,
-      "not_reorderable__par" => not_reorderable__par::make,
-      "two_inputs__mrt" => two_inputs__mrt::make,
-      "two_inputs__srcpar" => two_inputs__srcpar::make,
-      "wild__ser" => wild__ser::make,
-      "ternary__ren" => ternary__ren::make,
-      "bound_mix__perm1" => bound_mix__perm1::make,
-      "join_chain__par" => join_chain__par::make,
-      "join_chain__strpar" => join_chain__strpar::make,
-      "reach__topar" => reach__topar::make,
-      "lag_right__par" => lag_right__par::make,
-      "lag_right__str" => lag_right__str::make,
-      "lag_three__ser" => lag_three__ser::make,
-      "lag_mid__perm1" => lag_mid__perm1::make,
-      "lag_late_delta__par" => lag_late_delta__par::make,
-      "sp_dual__topar" => sp_dual__topar::make,
-      "sp_dual__init" => sp_dual__init::make,
-      "sp_weighted__par" => sp_weighted__par::make,
-      "longest_capped__topar" => longest_capped__topar::make,
-      "set_reach__gen" => set_reach__gen::make,
-      "bset__ser" => bset__ser::make,
-      "cp__to" => cp__to::make,
-      "bool_lat__ser" => bool_lat__ser::make,
-      "lat_multi_improve__pari" => lat_multi_improve__pari::make,
-      "count_paths__pari" => count_paths__pari::make,
-      "count_paths__src2" => count_paths__src2::make,
+      "tc_left__runpar" => tc_left__runpar::make,
+      "tc_left__strpar" => tc_left__strpar::make,
+      "tc_nonlin__ren" => tc_nonlin__ren::make,
+      "mutual__to" => mutual__to::make,
+      "mutual__srcto" => mutual__srcto::make,
+      "mutual__permpar" => mutual__permpar::make,
+      "scc_chain__topar" => scc_chain__topar::make,
+      "diamond__ser" => diamond__ser::make,
+      "repeated__pari" => repeated__pari::make,
+      "three_dyn__ser" => three_dyn__ser::make,
+      "three_dyn__permpar" => three_dyn__permpar::make,
+      "conds__par" => conds__par::make,
+      "conds__srcto" => conds__srcto::make,
+      "conds__permpar" => conds__permpar::make,
+      "count_up__topar" => count_up__topar::make,
+      "multi_head__ren" => multi_head__ren::make,
+      "facts__src0" => facts__src0::make,
+      "facts__perm1" => facts__perm1::make,
+      "opt_cols__par" => opt_cols__par::make,
+      "opt_cols__srcto" => opt_cols__srcto::make,
+      "same_gen__ser" => same_gen__ser::make,
+      "same_gen__permpar" => same_gen__permpar::make,
+      "two_inputs__par" => two_inputs__par::make,
+      "two_inputs__src1" => two_inputs__src1::make,
+      "two_inputs__perm2" => two_inputs__perm2::make,
+      "wild__pari" => wild__pari::make,
+      "ternary__str" => ternary__str::make,
+      "bound_mix__ren" => bound_mix__ren::make,
+      "join_chain__perm1" => join_chain__perm1::make,
+      "cond_simple_join__par" => cond_simple_join__par::make,
+      "zero_arity__par" => zero_arity__par::make,
+      "lag_right__to" => lag_right__to::make,
+      "lag_right__strpar" => lag_right__strpar::make,
+      "lag_three__pari" => lag_three__pari::make,
+      "lag_mid__ren" => lag_mid__ren::make,
+      "lag_late_delta__to" => lag_late_delta__to::make,
+      "multi_head_rec__exppar" => multi_head_rec__exppar::make,
+      "sp_dual__gen" => sp_dual__gen::make,
+      "sp_dual__srcpar" => sp_dual__srcpar::make,
+      "sp_weighted__to" => sp_weighted__to::make,
+      "set_reach__par" => set_reach__par::make,
+      "set_reach__src1" => set_reach__src1::make,
+      "bset__par" => bset__par::make,
+      "cp__topar" => cp__topar::make,
+      "bool_lat__par" => bool_lat__par::make,
+      "lat_multi_improve__to" => lat_multi_improve__to::make,
+      "lat_input__to" => lat_input__to::make,
+      "lat_input__srcto" => lat_input__srcto::make,
+      "count_paths__to" => count_paths__to::make,
+      "count_paths__srcto" => count_paths__srcto::make,
       "neg_basic__to" => neg_basic__to::make,
-      "neg_basic__redecl" => neg_basic__redecl::make,
-      "neg_basic__exp" => neg_basic__exp::make,
-      "agg_depth__to" => agg_depth__to::make,
-      "agg_user__par" => agg_user__par::make,
-      "agg_bound_mix__par" => agg_bound_mix__par::make,
-      "agg_empty_rel__par" => agg_empty_rel__par::make,
-      "agg_const_args__exppar" => agg_const_args__exppar::make,
-      "disj__gen" => disj__gen::make,
-      "disj__perm1" => disj__perm1::make,
-      "disj_nested__pari" => disj_nested__pari::make,
-      "rep_expr__ser" => rep_expr__ser::make,
-      "multi_head_disj__exp" => multi_head_disj__exp::make,
-      "mac_basic__par" => mac_basic__par::make,
-      "mac_basic__src1" => mac_basic__src1::make,
-      "mac_capture__ser" => mac_capture__ser::make,
-      "mac_nested__exp" => mac_nested__exp::make,
-      "mac_disj__par" => mac_disj__par::make,
-      "rnd_core_02__par" => rnd_core_02__par::make,
-      "rnd_core_05__ser" => rnd_core_05__ser::make,
-      "rnd_core_07__pari" => rnd_core_07__pari::make,
-      "rnd_core_10__par" => rnd_core_10__par::make,
-      "rnd_core_13__ser" => rnd_core_13__ser::make,
-      "rnd_core_15__pari" => rnd_core_15__pari::make,
-      "rnd_core_18__par" => rnd_core_18__par::make,
-      "rnd_core_21__ser" => rnd_core_21__ser::make,
-      "rnd_core_23__pari" => rnd_core_23__pari::make,
-      "rnd_core_26__par" => rnd_core_26__par::make,
-      "rnd_core_29__ser" => rnd_core_29__ser::make,
-      "rnd_agg_01__pari" => rnd_agg_01__pari::make,
-      "rnd_agg_04__par" => rnd_agg_04__par::make,
-      "rnd_agg_07__ser" => rnd_agg_07__ser::make,
-      "rnd_agg_09__pari" => rnd_agg_09__pari::make,
-      "rnd_agg_12__par" => rnd_agg_12__par::make,
-      "rnd_agg_15__ser" => rnd_agg_15__ser::make,
+      "neg_basic__srcto" => neg_basic__srcto::make,
+      "neg_basic__permpar" => neg_basic__permpar::make,
+      "agg_depth__pari" => agg_depth__pari::make,
+      "agg_user__ser" => agg_user__ser::make,
+      "agg_bound_mix__ser" => agg_bound_mix__ser::make,
+      "agg_empty_rel__ser" => agg_empty_rel__ser::make,
+      "agg_const_args__exp" => agg_const_args__exp::make,
+      "disj__mrt" => disj__mrt::make,
+      "disj__runpar" => disj__runpar::make,
+      "disj_nested__ser" => disj_nested__ser::make,
+      "pat_args__exp" => pat_args__exp::make,
+      "multi_head_disj__par" => multi_head_disj__par::make,
+      "neg_in_disj__exppar" => neg_in_disj__exppar::make,
+      "mac_basic__gen" => mac_basic__gen::make,
+      "mac_basic__srcpar" => mac_basic__srcpar::make,
+      "mac_nested__ser" => mac_nested__ser::make,
+      "mac_gensym_disj__exp" => mac_gensym_disj__exp::make,
+      "rnd_core_01__par" => rnd_core_01__par::make,
+      "rnd_core_04__ser" => rnd_core_04__ser::make,
+      "rnd_core_06__pari" => rnd_core_06__pari::make,
+      "rnd_core_09__par" => rnd_core_09__par::make,
+      "rnd_core_12__ser" => rnd_core_12__ser::make,
+      "rnd_core_14__pari" => rnd_core_14__pari::make,
+      "rnd_core_17__par" => rnd_core_17__par::make,
+      "rnd_core_20__ser" => rnd_core_20__ser::make,
+      "rnd_core_22__pari" => rnd_core_22__pari::make,
+      "rnd_core_25__par" => rnd_core_25__par::make,
+      "rnd_core_28__ser" => rnd_core_28__ser::make,
+      "rnd_core_30__pari" => rnd_core_30__pari::make,
+      "rnd_agg_03__par" => rnd_agg_03__par::make,
+      "rnd_agg_06__ser" => rnd_agg_06__ser::make,
+      "rnd_agg_08__pari" => rnd_agg_08__pari::make,
+      "rnd_agg_11__par" => rnd_agg_11__par::make,
+      "rnd_agg_14__ser" => rnd_agg_14__ser::make,
       _ => panic!("no such program variant in this shard: {}", name),
    }
 }
